@@ -212,10 +212,133 @@ func stretched(f func([]byte)) {
 	}
 }
 
+// nestedInlines yields every nesting of up to depth inline constructs (links and images in inline and reference
+// form, emphasis, strong, code span, autolink, raw tag), each level padded with text on both sides, followed by the
+// definitions the reference forms need. link(image(link(..))) and its 1000 siblings are where link-in-link
+// deactivation, alt text assembly and span arithmetic meet.
+func nestedInlines(depth int, f func([]byte)) {
+	wraps := [][2]string{{"[", "](/u)"}, {"[", "][r]"}, {"![", "](/s \"t\")"}, {"![", "][r]"}, {"*", "*"}, {"_", "_"}, {"**", "**"}, {"`", "`"}, {"<b>", "</b>"}, {"[", "]"}}
+	leaves := []string{"c", "<http://x.y>", "\\*", "&amp;"}
+	var rec func(d int, inner string)
+	rec = func(d int, inner string) {
+		f([]byte("a " + inner + " e\n\n[r]: /ru\n[c]: /cu\n"))
+		if d == depth {
+			return
+		}
+		for _, w := range wraps {
+			rec(d+1, w[0]+"b "+inner+" d"+w[1])
+			if d+1 == depth {
+				rec(d+1, w[0]+inner+w[1])
+			}
+		}
+	}
+	for _, l := range leaves {
+		rec(0, l)
+	}
+}
+
+// linkPieces yields inline links, images and reference definitions with every combination of white space (none,
+// space, line ending, both) between their pieces, alone and inside a block quote and a list item.
+func linkPieces(f func([]byte)) {
+	ws := []string{"", " ", "\n", " \n "}
+	dests := []string{"/u", "<u v>", "", "/u(v)"}
+	titles := []string{"", "\"t\"", "'t\nu'", "(t)", "\"t"}
+	heads := []string{"x [a](", "![a](", "[a]:"}
+	for _, h := range heads {
+		for _, w1 := range ws {
+			for _, d := range dests {
+				for _, w2 := range ws[:3] {
+					for _, t := range titles {
+						for _, w3 := range ws[:3] {
+							end := ") y\n"
+							if h == "[a]:" {
+								end = "\nz [a]\n"
+								if w3 != "" {
+									continue
+								}
+							}
+							doc := h + w1 + d + w2 + t + w3 + end
+							f([]byte(doc))
+							f([]byte("> " + strings.ReplaceAll(strings.TrimSuffix(doc, "\n"), "\n", "\n> ") + "\n"))
+							f([]byte("- " + strings.ReplaceAll(strings.TrimSuffix(doc, "\n"), "\n", "\n  ") + "\n"))
+						}
+					}
+				}
+			}
+		}
+	}
+}
+
+// lineProducts yields every document of two lines (and a seeded sample of three-line ones) where a line is a
+// container prefix (with spaces or tabs) followed by a content piece: the block rules meet tab stops, partially
+// consumed tabs, definitions, fences and setext underlines in every container.
+func (s *inputSource) lineProducts(sample3 int, f func([]byte)) {
+	prefixes := []string{"", "> ", ">", "- ", "  ", ">\t", " \t", "1. ", "   ", "\t", "    ", "> - ", ">  "}
+	contents := []string{"a", "[foo]: /url", "b *c*", "\tb *c*", "# h", "```", "---", "", "===", "[foo]", "<div>", "'t'", "    x", "* * *", "2. n"}
+	var lines []string
+	for _, p := range prefixes {
+		for _, c := range contents {
+			lines = append(lines, p+c+"\n")
+		}
+	}
+	for _, a := range lines {
+		for _, b := range lines {
+			f([]byte(a + b))
+		}
+	}
+	for i := 0; i < sample3; i++ {
+		f([]byte(s.pick(lines) + s.pick(lines) + s.pick(lines)))
+	}
+}
+
+// dupDefinitions yields documents in which one label is defined twice at different nesting depths (and in either
+// order) and then used: "first definition wins" is about source order, whatever the depth.
+func dupDefinitions(f func([]byte)) {
+	conts := []string{"", "> ", "- ", "> > ", "> - ", "1. "}
+	seps := []string{"", "\n", "# h\n", ">\n"}
+	for _, c1 := range conts {
+		for _, c2 := range conts {
+			for _, sep := range seps {
+				f([]byte(c1 + "[a]: /first\n" + sep + c2 + "[a]: /second 't'\n\nsee [a] and [A][]\n"))
+			}
+		}
+	}
+}
+
+// nulInjected yields every fragment with a NUL byte (and, separately, an invalid UTF-8 byte) inserted at every position:
+// the parser works on a NUL-padded buffer and rewrites Source afterwards, so every construct must survive the replacement.
+func nulInjected(f func([]byte)) {
+	for _, fr := range fragments {
+		if len(fr) > 24 {
+			continue
+		}
+		for i := 0; i <= len(fr); i++ {
+			f([]byte(fr[:i] + "\x00" + fr[i:] + "\n"))
+			if i%3 == 0 {
+				f([]byte(fr[:i] + "\xff" + fr[i:] + "\n\n[a]\n"))
+			}
+		}
+	}
+}
+
+// structured yields the deterministic structured families shared by the input sets of most checks.
+func (s *inputSource) structured(thorough bool, f func([]byte)) {
+	nestedInlines(map[bool]int{false: 3, true: 4}[thorough], f)
+	linkPieces(f)
+	dupDefinitions(f)
+	nulInjected(f)
+	s.lineProducts(map[bool]int{false: 4000, true: 120000}[thorough], func(d []byte) {
+		f(d)
+		// the same document ending without its final line ending (end of input inside every block rule)
+		f(d[:len(d)-1])
+	})
+}
+
 // mixed yields the stretched inputs and then n inputs drawn from all non-exhaustive sources (corpus, damage,
 // fragments, random, wrapped).
 func (s *inputSource) mixed(n int, f func([]byte)) {
 	stretched(f)
+	dupDefinitions(f)
 	ex := specExamples()
 	for i := 0; i < n; i++ {
 		var doc []byte
